@@ -274,3 +274,23 @@ Lemma index_contains_step s r v id l x : reg_list s r = Some (id, l) -> eval_ope
   step_core s (LIndexOf r v) = (s, Ret (OZ (l_index_of l x 0))) /\ step_core s (LContains r v) = (s, Ret (OB (l_contains l x))) /\
   step_core s (LCount r) = (s, Ret (OZ (Z.of_nat (length l)))) /\ step_core s (LEmpty r) = (s, Ret (OB (Nat.eqb (length l) 0))).
 Proof. intros Hr Hv. cbn [step_core]. rewrite Hr, Hv. repeat split. destruct l; reflexivity. Qed.
+
+(* Clear (list and object): no panic; the receiver's cell becomes empty, so EVERY register aliasing it reads empty afterwards;
+   every other cell and the environment are untouched *)
+Lemma clear_step s r id l : reg_list s r = Some (id, l) ->
+  let s' := fst (step_core s (LClear r)) in
+  snd (step_core s (LClear r)) = Ret ONone /\ st_env s' = st_env s /\
+  (forall r', nth_error (st_env s) r' = Some (HL id) -> reg_list s' r' = Some (id, [])) /\
+  (forall j, j <> id -> nth_error (st_heap s') j = nth_error (st_heap s) j) /\ length (st_heap s') = length (st_heap s).
+Proof.
+  intros Hr. cbn [step_core]. rewrite Hr. cbn [fst snd with_heap st_env st_heap]. split; [reflexivity|]. split; [reflexivity|].
+  assert (Hid : (id < length (st_heap s))%nat).
+  { unfold reg_list in Hr. destruct (nth_error (st_env s) r) as [[| | | | |i|]|]; try discriminate.
+    unfold get_list in Hr. destruct (nth_error (st_heap s) i) as [c|] eqn:E; [|discriminate].
+    destruct c; try discriminate. injection Hr as <- _. apply nth_error_Some. congruence. }
+  split; [|split].
+  - intros r' Hr'. unfold reg_list, with_heap. cbn [st_env st_heap]. rewrite Hr'. unfold get_list, set_list.
+    rewrite nth_error_upd_eq by exact Hid. reflexivity.
+  - intros j Hj. unfold set_list. apply nth_error_upd_neq. congruence.
+  - unfold set_list. apply upd_length.
+Qed.
